@@ -80,20 +80,60 @@ def _fmt_e_width(fmt, e_digits):
     return max(int(wd), (1 if sp else 0) + 2 + int(prec or 6) + 2 + e_digits)
 
 
+BROKEN_HELPERS = {}   # helper name -> {magnitude class: width} when the widths differ
+
+
+def _abs_cmp(test, a, cls):
+    """truth of `abs(a) < C` (and <=, >, >=) for the magnitude classes 'normal' (two-digit exponent: 0 or 1e-99 <= |a| < 1e100),
+    'huge' (|a| >= 1e100) and 'tiny' (0 < |a| < 1e-99); None when the class straddles C"""
+    if not (isinstance(test, ast.Compare) and len(test.ops) == 1 and isinstance(test.left, ast.Call) and isinstance(test.left.func, ast.Name)
+            and test.left.func.id == "abs" and len(test.left.args) == 1 and isinstance(test.left.args[0], ast.Name) and test.left.args[0].id == a
+            and isinstance(test.comparators[0], ast.Constant) and isinstance(test.comparators[0].value, (int, float))):
+        return None
+    C = float(test.comparators[0].value)
+    less = isinstance(test.ops[0], (ast.Lt, ast.LtE))
+    if not less and not isinstance(test.ops[0], (ast.Gt, ast.GtE)):
+        return None
+    if cls == "huge":
+        below = False if C <= 1e100 else None          # |a| >= 1e100 is not below any C <= 1e100
+    elif cls == "tiny":
+        below = True if C >= 1e-99 else None
+    else:
+        below = True if C >= 1e100 else None           # the normal class contains 0 and 9.9e99
+        if C == 1e100 and isinstance(test.ops[0], (ast.LtE, ast.Gt)):
+            below = True
+    if below is None:
+        return None
+    return below if less else not below
+
+
 def helper_widths(mod):
-    """Module-level helpers `def h(a): s = FMT1 % a; if len(s) > N: s = FMT2 % a; return s`:
-    evaluate the length of the result for exponents of two and three digits; a helper whose
-    result has one width in both cases is a fixed-width number formatter."""
+    """Module-level helpers that format one number (`s = FMT1 % a; if len(s) > N: s = FMT2 % a; return s`, or a choice of the
+    format by `abs(a) < C`): evaluate the length of the result for the three magnitude classes of a double (two-digit exponent,
+    |a| >= 1e100, 0 < |a| < 1e-99); a helper whose result has one width in every class is a fixed-width number formatter, one whose
+    widths differ is recorded in BROKEN_HELPERS."""
     out = {}
+    BROKEN_HELPERS.clear()
     for q, fn in mod.funcs.items():
         if "." in q or len(pf.arg_names(fn)) != 1:
             continue
         a = pf.arg_names(fn)[0]
-        results = set()
+        results = {}
         ok = True
-        for e_ in (2, 3):
+        for cls, e_ in (("normal", 2), ("huge", 3), ("tiny", 3)):
             env = {}
             ret = [None]
+
+            def fmt_width(v):
+                if isinstance(v, ast.BinOp) and isinstance(v.op, ast.Mod) and isinstance(v.left, ast.Constant) and isinstance(v.left.value, str) \
+                        and isinstance(v.right, ast.Name) and v.right.id == a:
+                    wv = _fmt_e_width(v.left.value, e_)
+                    if wv is None:
+                        raise ValueError
+                    return wv
+                if isinstance(v, ast.Name) and v.id in env:
+                    return env[v.id]
+                raise ValueError
 
             def run(stmts):
                 for s in stmts:
@@ -101,13 +141,8 @@ def helper_widths(mod):
                         return
                     if isinstance(s, ast.Expr) and isinstance(s.value, ast.Constant):
                         continue
-                    if isinstance(s, ast.Assign) and len(s.targets) == 1 and isinstance(s.targets[0], ast.Name) and isinstance(s.value, ast.BinOp) \
-                            and isinstance(s.value.op, ast.Mod) and isinstance(s.value.left, ast.Constant) and isinstance(s.value.left.value, str) \
-                            and isinstance(s.value.right, ast.Name) and s.value.right.id == a:
-                        wv = _fmt_e_width(s.value.left.value, e_)
-                        if wv is None:
-                            raise ValueError
-                        env[s.targets[0].id] = wv
+                    if isinstance(s, ast.Assign) and len(s.targets) == 1 and isinstance(s.targets[0], ast.Name):
+                        env[s.targets[0].id] = fmt_width(s.value)
                     elif isinstance(s, ast.If) and isinstance(s.test, ast.Compare) and len(s.test.ops) == 1 and isinstance(s.test.left, ast.Call) \
                             and isinstance(s.test.left.func, ast.Name) and s.test.left.func.id == "len" and isinstance(s.test.left.args[0], ast.Name) \
                             and s.test.left.args[0].id in env and isinstance(s.test.comparators[0], ast.Constant):
@@ -117,8 +152,13 @@ def helper_widths(mod):
                         if val is None:
                             raise ValueError
                         run(s.body if val else s.orelse)
-                    elif isinstance(s, ast.Return) and isinstance(s.value, ast.Name) and s.value.id in env:
-                        ret[0] = env[s.value.id]
+                    elif isinstance(s, ast.If):
+                        val = _abs_cmp(s.test, a, cls)
+                        if val is None:
+                            raise ValueError
+                        run(s.body if val else s.orelse)
+                    elif isinstance(s, ast.Return) and s.value is not None:
+                        ret[0] = fmt_width(s.value)
                     else:
                         raise ValueError
             try:
@@ -129,9 +169,11 @@ def helper_widths(mod):
             if ret[0] is None:
                 ok = False
                 break
-            results.add(ret[0])
-        if ok and len(results) == 1:
-            out[q] = results.pop()
+            results[cls] = ret[0]
+        if ok and len(set(results.values())) == 1:
+            out[q] = results["normal"]
+        elif ok:
+            BROKEN_HELPERS[q] = results
     return out
 
 
@@ -359,6 +401,11 @@ def build(tier, repo):
     NUM_HELPERS.update(helper_widths(m))
     for hn, hw in sorted(NUM_HELPERS.items()):
         r1.ok("helper %s returns a string of fixed width %d (two- and three-digit exponents)" % (hn, hw), m.where(m.funcs[hn], m.funcs[hn]))
+    for hn, ws in sorted(BROKEN_HELPERS.items()):
+        r1.violation("helper %s returns a string of fixed width" % hn, m.where(m.funcs[hn], m.funcs[hn]),
+                     "the number formatter returns strings of different widths for different magnitudes (%s): a number with a three-digit "
+                     "exponent overflows the 12-column MPS field and is read back with its last exponent digit cut off"
+                     % ", ".join("%s: %d" % kv for kv in sorted(ws.items())), "one width for every double", ws)
     recs = records_of(tofile)
     nfields = 0
     for section, fields in recs:
@@ -715,4 +762,8 @@ def build(tier, repo):
     r10.require(1)
     r9 = chk.rule("C14-R9", "the reader never removes elements from a list it is iterating over", "fromfile builds exactly the constraints the format defines")
     chk.note_analysed("loops_with_list_mutation", mr5.iterate_and_mutate_rule(r9, w))
+    from .. import w7_rules as w7
+    r11 = chk.rule("C14-R11", "a boolean flag of the reader that is tested is also raised (the first N row is the objective, later ones are free rows)",
+                   "fromfile builds exactly the problem the file describes")
+    chk.note_analysed("boolean_flags", w7.dead_flag_rule(r11, w.mods["modeling"].tree, "modeling.py"))
     return chk
